@@ -59,6 +59,11 @@ func main() {
 		stress(rng, emit)
 		return
 	}
+	if mode == "gennode" {
+		// only the generated-node lock-discipline scenarios (the check builds this with the race detector)
+		genNodeDiscipline(emit)
+		return
+	}
 	// 0. model traces from the exhaustive exploration (driver gen), forced one by one
 	for _, a := range os.Args[4:] {
 		if strings.HasPrefix(a, "dir=") || strings.HasPrefix(a, "diron=") {
@@ -103,6 +108,7 @@ func main() {
 	}
 	if mode == "c13" {
 		debugHandlers(emit)
+		genNodeDiscipline(emit)
 	}
 	if mode == "c14" {
 		// real 1 ms ticker: ticks are nondeterministic
